@@ -109,7 +109,7 @@ func TestVerif_C19(t *testing.T) {
 	b := e3New(t, E3Options{})
 	defer b.Close()
 
-	run.Cases("routes", run.N(1500, 40000), func(i int, rng *verifkit.Rand) {
+	run.Cases("routes", run.N(1500, 300000), func(i int, rng *verifkit.Rand) {
 		lst := E3Incoming
 		if rng.Chance(0.4) {
 			lst = E3Peer
@@ -365,7 +365,7 @@ func c19Run(run *verifkit.Run, b *E3Bench, rng *verifkit.Rand, req *E3Req, lst E
 		for k, c := range uniq {
 			keys = append(keys, fmt.Sprintf("%s*%d", k, c))
 		}
-		sortStrings(keys)
+		c19SortStrings(keys)
 		run.Nontrivial(strings.Join([]string{lst.String(), enc.String(), state, strings.Join(keys, ",")}, "|"))
 	}
 	if caseNo < 3 {
@@ -373,7 +373,7 @@ func c19Run(run *verifkit.Run, b *E3Bench, rng *verifkit.Rand, req *E3Req, lst E
 	}
 }
 
-func sortStrings(xs []string) {
+func c19SortStrings(xs []string) {
 	for i := 1; i < len(xs); i++ {
 		for j := i; j > 0 && xs[j] < xs[j-1]; j-- {
 			xs[j], xs[j-1] = xs[j-1], xs[j]
